@@ -302,6 +302,60 @@ impl tokio::io::AsyncWrite for SegCarrier {
     }
 }
 
+/// The remote of a dialing WebSocket client: it reads the upgrade request, derives the accept key
+/// from it and puts it where the 28-byte marker stands in `template` (first occurrence only, so
+/// all offsets stay the same), then sends the bytes; reads never cross the offset `cut`.
+pub const WS_ACCEPT_MARKER: &[u8; 28] = b"@@@@@@@@@@@@@@@@@@@@@@@@@@@@";
+#[derive(Clone)]
+struct Responder {
+    template: Arc<Vec<u8>>,
+    limit: usize,
+    cut: usize,
+    st: Arc<Mutex<(Vec<u8>, Option<Vec<u8>>, usize)>>, // request seen so far, response once built, position
+}
+impl Responder {
+    fn new(template: &[u8], limit: usize, cut: usize) -> Self {
+        Responder { template: Arc::new(template.to_vec()), limit, cut, st: Default::default() }
+    }
+}
+impl tokio::io::AsyncRead for Responder {
+    fn poll_read(self: Pin<&mut Self>, _cx: &mut Context<'_>, buf: &mut tokio::io::ReadBuf<'_>) -> Poll<std::io::Result<()>> {
+        let mut g = self.st.lock().unwrap();
+        if g.1.is_none() {
+            let req = String::from_utf8_lossy(&g.0).to_string();
+            let key = req.lines().find_map(|l| l.strip_prefix("Sec-WebSocket-Key: ")).unwrap_or("").trim().to_string();
+            let accept = tokio_tungstenite::tungstenite::handshake::derive_accept_key(key.as_bytes());
+            let mut r = self.template[..self.limit].to_vec();
+            if accept.len() == 28 {
+                if let Some(i) = r.windows(28).position(|w| w == WS_ACCEPT_MARKER) {
+                    r[i..i + 28].copy_from_slice(accept.as_bytes());
+                }
+            }
+            g.1 = Some(r);
+        }
+        let (_, resp, pos) = &mut *g;
+        let data = resp.as_ref().unwrap();
+        let limit = if *pos < self.cut { self.cut.min(data.len()) } else { data.len() };
+        let n = buf.remaining().min(limit - *pos);
+        buf.put_slice(&data[*pos..*pos + n]);
+        *pos += n;
+        Poll::Ready(Ok(()))
+    }
+}
+impl tokio::io::AsyncWrite for Responder {
+    fn poll_write(self: Pin<&mut Self>, _cx: &mut Context<'_>, buf: &[u8]) -> Poll<std::io::Result<usize>> {
+        self.st.lock().unwrap().0.extend_from_slice(buf);
+        Poll::Ready(Ok(buf.len()))
+    }
+    fn poll_flush(self: Pin<&mut Self>, _cx: &mut Context<'_>) -> Poll<std::io::Result<()>> {
+        Poll::Ready(Ok(()))
+    }
+    fn poll_shutdown(self: Pin<&mut Self>, _cx: &mut Context<'_>) -> Poll<std::io::Result<()>> {
+        Poll::Ready(Ok(()))
+    }
+}
+const WS_URL: &str = "ws://10.0.0.1:4001/";
+
 /// everything the adapter hands out until it ends (0) or fails (1); 3 = iteration cap
 async fn ws_drain<S: tokio::io::AsyncRead + tokio::io::AsyncWrite + Unpin>(mut ws: VerifWsStream<S>, chunk: usize) -> (Vec<u8>, u64) {
     let mut out = Vec::new();
@@ -317,13 +371,14 @@ async fn ws_drain<S: tokio::io::AsyncRead + tokio::io::AsyncWrite + Unpin>(mut w
 }
 
 /// `23 mode chunk cut (L stream)`: mode 0 server role, 2 client role (both without HTTP upgrade,
-/// cut = 0), 1 `accept_async` first (the remote sends stream[..cut], then the rest)
+/// cut = 0), 1 `accept_async` first (the remote sends stream[..cut], then the rest), 3
+/// `client_async_tls` first (the stream is the remote's response with the accept-key marker)
 pub fn websocket(cur: &mut Cur, case: &mut Vec<u64>) -> Option<Vec<u64>> {
     let mode = cur.n()?;
     let chunk = cur.n()? as usize;
     let cut = cur.n()? as usize;
     let stream = cur.bytes()?;
-    if !cur.done() || mode > 2 || chunk == 0 || chunk > 1 << 20 || (mode != 1 && cut != 0) || cut > stream.len() {
+    if !cur.done() || mode > 3 || chunk == 0 || chunk > 1 << 20 || (mode != 1 && mode != 3 && cut != 0) || cut > stream.len() {
         return None;
     }
     RT.with(|rt| {
@@ -335,6 +390,26 @@ pub fn websocket(cur: &mut Cur, case: &mut Vec<u64>) -> Option<Vec<u64>> {
             let ok = rt.block_on(VerifWsStream::accept(c.clone())).is_ok();
             let consumed = *c.pos.lock().unwrap();
             orc.add(8, &stream, || vec![ok as u64, if ok { consumed as u64 } else { 0 }]);
+        }
+        if mode == 3 {
+            // oracle: does the HTTP upgrade RESPONSE parser accept, and how long is the response
+            // head (the shortest prefix of the stream that is still accepted)
+            let accepts = |n: usize| rt.block_on(VerifWsStream::connect(WS_URL, Responder::new(&stream, n, cut.min(n)))).is_ok();
+            let ok = accepts(stream.len());
+            let mut head = 0usize;
+            if ok {
+                let (mut lo, mut hi) = (0usize, stream.len());
+                while lo < hi {
+                    let mid = (lo + hi) / 2;
+                    if accepts(mid) {
+                        hi = mid;
+                    } else {
+                        lo = mid + 1;
+                    }
+                }
+                head = lo;
+            }
+            orc.add(8, &stream, || vec![ok as u64, head as u64]);
         }
         orc.push(case);
         let ((accepted, out, st), peak) = measure(|| {
@@ -353,6 +428,19 @@ pub fn websocket(cur: &mut Cur, case: &mut Vec<u64>) -> Option<Vec<u64>> {
                             (0u64, Vec::new(), 1u64)
                         }
                     }
+                } else if mode == 3 {
+                    match VerifWsStream::connect(WS_URL, Responder::new(&stream, stream.len(), cut)).await {
+                        Ok(ws) => {
+                            let (out, st) = ws_drain(ws, chunk).await;
+                            (1u64, out, st)
+                        }
+                        Err(e) => {
+                            if std::env::var_os("C19_DEBUG").is_some() {
+                                eprintln!("ws connect: {e}");
+                            }
+                            (0u64, Vec::new(), 1u64)
+                        }
+                    }
                 } else {
                     let ws = VerifWsStream::established(tokio_carrier(&stream), mode == 0).await;
                     let (out, st) = ws_drain(ws, chunk).await;
@@ -363,7 +451,7 @@ pub fn websocket(cur: &mut Cur, case: &mut Vec<u64>) -> Option<Vec<u64>> {
         let mut body = vec![accepted];
         el(&mut body, &out);
         body.push(st);
-        Some(hdr(peak, ws_bound(stream.len()), 0, body))
+        Some(hdr(peak, ws_bound(stream.len()), out.len() as u64, body))
     })
 }
 
@@ -476,6 +564,7 @@ pub fn mdns(cur: &mut Cur, case: &mut Vec<u64>) -> Option<Vec<u64>> {
         }
         orc.push(case);
         let (r, peak) = measure(|| m.on_datagram(&datagram));
+        let mut cap = 0;
         let body = match r {
             VerifMdnsOutcome::ParseError => vec![0],
             VerifMdnsOutcome::Discovered(addrs) => {
@@ -483,6 +572,7 @@ pub fn mdns(cur: &mut Cur, case: &mut Vec<u64>) -> Option<Vec<u64>> {
                 l.sort();
                 let mut o = vec![1];
                 ell(&mut o, &l);
+                cap = l.len() as u64;
                 o
             }
             VerifMdnsOutcome::Reply(None) => vec![2, 0],
@@ -492,7 +582,7 @@ pub fn mdns(cur: &mut Cur, case: &mut Vec<u64>) -> Option<Vec<u64>> {
                 vec![2, 1, n as u64, (n == nlisten) as u64]
             }
         };
-        Some(hdr(peak, alloc_bound(cut.len()) + (1 << 16), 0, body))
+        Some(hdr(peak, alloc_bound(cut.len()) + (1 << 16), cap, body))
     })
 }
 
